@@ -14,7 +14,7 @@ import (
 )
 
 var sqlNameAlpha = []string{"t", "users", "a", "b", "c", "a\"b", "a`b", "x\"; DROP TABLE t; --", "we ird", "q'q", "back\\slash",
-	"semi;colon", "dash--dash", "a\x1fb", "q\"\x1f", "`\x1fz", "NULL VALUES (", "a VALUES b", "date", "text", "Sepal.Length", "a.b", ".x", "x.", "a.b.c", " lead", "trail ", "nb\u00a0", "\tt", " t", "t ", " ", "", "growth%", "margin %d", "100%s %v", "/*c*/", "\"", "`", "\"\"", "é", "A", "col 1", "sel\"ect\"", "a\"\"b", "$1", "?",
+	"semi;colon", "dash--dash", "a\x1fb", "q\"\x1f", "`\x1fz", "NULL VALUES (", "a VALUES b", "date", "text", "Sepal.Length", "a.b", ".x", "x.", "a.b.c", " lead", "trail ", "nb\u00a0", "\tt", " t", "t ", " ", "", "growth%", "margin %d", "100%s %v", "/*c*/", "t */ x", "*/", "/*", "a/*b", "-- c", "\"", "`", "\"\"", "é", "A", "col 1", "sel\"ect\"", "a\"\"b", "$1", "?",
 	"abcdefghijklmnopqrstuvwxyzabcdefghijklmnopqrstuvwxyzabcdefghij\"z", "abcdefghijklmnopqrstuvwxyzabcdefghijklmnopqrstuvwxyzabcdefghijk`z"}
 
 type sqlwScenario struct {
